@@ -41,6 +41,7 @@ def run(ctx) -> None:
     ctx.reuse("C05.source-comp", c01.pair_distribute, "C01.pair-distribute")
     ctx.guard("C05.default-name", default_name)
     ctx.guard("C05.default-name", trough_names)
+    ctx.guard("C05.default-name", _name_buffers)
 
 
 def owner(ctx) -> None:
@@ -194,6 +195,15 @@ def mix_args(ctx) -> None:
     b = fv.bind_args(cs) or {}
     w = f.where(cs.call)
     stores = [s for s in LL.analyse_stores(ctx, fv) if s.element_store and s.well_elem is not None]
+    if not stores:
+        # fractions are committed well by well inside the loop - the volumes must be, too; otherwise a call that fails at a
+        # later well leaves wells whose reported composition belongs to liquid that was never added
+        comp_in_loop = [n for n, t in _comp_stores(ctx, fv) if fv.cfg.enclosing_loops(n.id)]
+        rebinds = [n for n in fv.cfg.nodes if n.kind == "stmt" and isinstance(n.ast, ast.Assign) and attr_of_name(n.ast.targets[0], selfn, "_volumes") and not fv.cfg.enclosing_loops(n.id)]
+        if comp_in_loop and rebinds:
+            ctx.rep.refuted(rule, f"{f.qualname}/commit-order", f"the mixed fractions are written per well inside the loop (`{stmt_key(comp_in_loop[0].ast)[:50]}`) but the volumes are only committed after it "
+                            f"(`{stmt_key(rebinds[0].ast)[:40]}`): when a later well is refused, earlier wells report the composition of liquid they never received", where=f.where(comp_in_loop[0].ast))
+            return
     if not stores or not all(k in b for k in ("volume_A", "composition_A", "volume_B", "composition_B")):
         ctx.rep.inconclusive(rule, f"{f.qualname}/combine", "cannot bind the arguments / find the volume store", where=w)
         return
@@ -331,6 +341,13 @@ def div_zero(ctx) -> None:
             ctx.rep.check(ok, rule, c, f"denominator `{pd.pretty()}` is guarded against 0",
                           f"denominator `{pd.pretty()}` can be 0 (adding 0 µL to an empty well): 0/0 stores NaN fractions; no guard on a zero total dominates the division", where=f.where(d))
     ctx.rep.floor(rule, "divisions in composition tracking", n, 1)
+
+
+def _name_buffers(ctx) -> None:
+    from .common import buffer_dtype_rule
+
+    if buffer_dtype_rule(ctx, "C05.default-name", ("get_initial_composition", "get_trough_component_names"), ("name", "real_wells", "component_names", "column_names")) == 0:
+        ctx.rep.holds("C05.default-name", "composition/no-typed-buffer", "component names are not kept in a fixed-width string buffer")
 
 
 def default_name(ctx) -> None:
